@@ -45,8 +45,8 @@ func init() {
 			}
 			return []runner.Phase{
 				{Name: "direct", Variant: "race", Cases: n, Run: c16direct, CaseTimeout: 180 * time.Second,
-					Required: []string{"steps", "step_add", "step_remove", "step_readdress", "step_replace_id", "step_invalid_rows", "step_duplicate_row", "step_down", "step_up", "step_refresh_failure", "step_control_loss", "step_flap", "step_event_for_removed", "consistency_checks"}},
-				{Name: "realtime", Variant: "race", Cases: rt, Shards: 8, Run: c16realtime, CaseTimeout: 180 * time.Second, Required: []string{"event_bursts"}},
+					Required: []string{"steps", "step_add", "step_remove", "step_readdress", "step_replace_id", "step_invalid_rows", "step_duplicate_row", "step_down", "step_up", "step_refresh_failure", "step_control_loss", "step_flap", "step_event_for_removed", "step_peer_address_change", "consistency_checks"}},
+				{Name: "realtime", Variant: "race", Cases: rt, Shards: 8, Run: c16realtime, CaseTimeout: 180 * time.Second, Required: []string{"event_bursts", "refresh_overlaps"}},
 			}
 		},
 	})
@@ -559,6 +559,37 @@ func c16direct(c *runner.Ctx, i int) {
 				}
 			}
 			c.Add("step_flap", 1)
+		case step == 13 && len(others) > 0:
+			n := others[r.Intn(len(others))]
+			if m.down[n] {
+				continue
+			}
+			// only the node-to-node address changes (separate client and inter-node networks): same host id,
+			// same client address; the cluster's later status events name the new address
+			np := net.IPv4(10, 77, 2, byte(m.nextIP)).To4()
+			m.nextIP++
+			desc = fmt.Sprintf("node-to-node address of %s changes %s -> %s", n.IP, peerAddr(n), np)
+			cl.SetPeerIP(n, np)
+			c.Add("step_peer_address_change", 1)
+			changed = true
+			if err := refresh(); err != nil {
+				c.Inconclusive("c16-refresh-unavailable", clipS(err.Error()))
+				return
+			}
+			if r.Intn(2) == 0 {
+				m.down[n] = true
+				desc += ", then DOWN for the new address (still reachable)"
+				gocql.VerifHandleNodeEvents(sess, []gocql.VerifNodeEvent{{Change: "DOWN", Host: np, Port: 9042}})
+				c16quiesce(sess, m)
+				before := n.QueryCount("LIST ")
+				for k := 0; k < 40; k++ {
+					qn++
+					c.Guard("Query.Exec", func() { sess.Query(fmt.Sprintf("LIST p%d", qn)).Exec() })
+				}
+				if got := n.QueryCount("LIST ") - before; got > 0 {
+					c.Violation("C16:query-sent-to-down-node:after-peer-address-change", fmt.Sprintf("%d of 40 queries were sent to node %s after it was reported DOWN under its new node-to-node address %s", got, n.IP, np), map[string]interface{}{"history": append(append([]string{}, hist...), desc)})
+				}
+			}
 		case step == 8:
 			ip := net.IPv4(10, 7, 7, byte(r.Intn(200)+1)).To4()
 			ev := gocql.VerifNodeEvent{Change: []string{"UP", "DOWN"}[r.Intn(2)], Host: ip, Port: 9042}
@@ -628,8 +659,87 @@ func c16direct(c *runner.Ctx, i int) {
 	}
 }
 
+// c16refreshOverlap: a node joins while the refresh caused by an earlier join is still running (it has already
+// read the peer list). The second join has asked for a refresh of its own through the refresh debouncer, and
+// that refresh has to happen: after things settle the session knows both nodes.
+func c16refreshOverlap(c *runner.Ctx, i int) {
+	r := c.Rng
+	sess, m, pol, ok := c16session(c, r, i)
+	if !ok {
+		return
+	}
+	defer func() { c.Guard("Session.Close", sess.Close) }()
+	cl := m.cl
+	base := c16peersQueries(cl)
+	gate := make(chan struct{})
+	arrived := make(chan struct{}, 16)
+	var gateOnce sync.Once
+	openGate := func() { gateOnce.Do(func() { close(gate) }) }
+	defer openGate()
+	var held int32
+	cl.SetBeforePeersReply(func(n *fakenode.Node) {
+		if atomic.CompareAndSwapInt32(&held, 0, 1) {
+			arrived <- struct{}{}
+			select {
+			case <-gate:
+			case <-time.After(20 * time.Second):
+			}
+		}
+	})
+	ip1 := net.IPv4(10, 0, 5, byte(10+i%100)).To4()
+	n1 := cl.AddNode(ip1, "dc0", "r1", []string{"7771"})
+	n1.HostID = c16id(700 + 2*i)
+	// delivered the way the event debouncer would deliver it; the ring refresh it asks for is debounced (1 s)
+	gocql.VerifHandleNodeEvents(sess, []gocql.VerifNodeEvent{{Topology: true, Change: "NEW_NODE", Host: ip1, Port: 9042}})
+	select {
+	case <-arrived:
+	case <-time.After(10 * time.Second):
+		c.Inconclusive("c16-overlap-no-refresh", "no ring refresh arrived within 10 s of a NEW_NODE event")
+		return
+	}
+	// the refresh has its peer list (without the second node) and is held; the second node joins now
+	ip2 := net.IPv4(10, 0, 6, byte(10+i%100)).To4()
+	n2 := cl.AddNode(ip2, "dc0", "r2", []string{"7772"})
+	n2.HostID = c16id(701 + 2*i)
+	gocql.VerifHandleNodeEvents(sess, []gocql.VerifNodeEvent{{Topology: true, Change: "NEW_NODE", Host: ip2, Port: 9042}})
+	time.Sleep(time.Duration(r.Intn(1200)) * time.Millisecond) // the first refresh ends before or after the debounce interval
+	cl.SetBeforePeersReply(nil)
+	openGate()
+	c.Add("refresh_overlaps", 1)
+	// bounded progress: the second join's refresh is due one debounce interval (1 s) after its event
+	found := false
+	for step := 0; step < 400; step++ {
+		byID, _, _ := gocql.VerifRingSnapshot(sess)
+		if _, ok := byID[uuidString(n2.HostID)]; ok && n2.DataConnsOpen() > 0 {
+			found = true
+			break
+		}
+		time.Sleep(20 * time.Millisecond)
+	}
+	c16quiesce(sess, m)
+	probs := c16verify(sess, m, pol)
+	if len(probs) > 0 {
+		time.Sleep(1500 * time.Millisecond)
+		c16quiesce(sess, m)
+		probs = c16verify(sess, m, pol)
+	}
+	refreshes := c16peersQueries(cl) - base
+	wit := map[string]interface{}{"second_node_known_after_wait": found, "peers_queries": refreshes}
+	for _, p := range probs {
+		c.Violation("C16:refresh-overlap:"+p[0], "a node that joined while an earlier refresh was running: "+p[1], wit)
+	}
+	c.Eval(runner.H("c16overlap", i), true)
+	if c.WantSample() {
+		c.Sample(wit)
+	}
+}
+
 // c16realtime: events arrive as EVENT frames on the control connection and go through the real debouncers.
 func c16realtime(c *runner.Ctx, i int) {
+	if i%2 == 1 {
+		c16refreshOverlap(c, i)
+		return
+	}
 	r := c.Rng
 	sess, m, pol, ok := c16session(c, r, i)
 	if !ok {
